@@ -65,6 +65,11 @@ _reg("C11", "xsim.manager.props", "C11", "exploration", {"quick": 4800, "thoroug
      "(then mirrored execution), or copy_expr_from into another manager (plain, or rebinding the label to a nested reference, "
      "overwrite both ways, pre-existing definitions); every assigned expression and target is also printed and re-evaluated; "
      "distinct = distinct case digest; non-trivial = at least one restart was executed")
+_reg("C13", "xsim.manager.props", "C13", "exploration", {"quick": 4800, "thorough": 150000}, {"quick": 150, "thorough": 600},
+     ("pure", "compiled"), COMPONENTS_MANAGER,
+     "one case = seeded acyclic expression history with 1-4 gen_fun calls at random positions (1-3 graph-leaf arguments, generated "
+     "values); the subject calls the generated function, a twin manager with the same history assigns through set_value; the "
+     "mk_fun source is checked line by line; distinct = distinct case digest; non-trivial = at least one generated function was called")
 
 
 def driver_for(prop):
@@ -130,4 +135,27 @@ MANIFEST_TEXT = {
              "(linear knobs as their own violation class)",
         design_ref="DESIGN.md 5 (C18)", note=_TB,
         technique="deterministic simulation: fault injection at every access of an update, recovery check"),
+    "C11": dict(
+        text="expression-only histories with 1-3 durable-form 'restarts' at arbitrary points: dump() -> JSON -> load() into a "
+             "fresh manager over copied containers, or copy_expr_from into another manager (plain, or rebinding the label to a "
+             "nested reference, overwrite both ways, pre-existing definitions kept); after the restart the history continues in "
+             "lock-step on both managers (contents, definitions) or on the copy; every assigned expression/target is printed and "
+             "re-evaluated (==, hash, value, dependencies). Deferred equality nodes (KF-2) run as a separate 12% population",
+        design_ref="DESIGN.md 5 (C11), 6", note=_TB,
+        technique="deterministic simulation: dump/load and copy_expr_from restarts inside seeded histories, lock-step twin"),
+    "C12": dict(
+        text="histories (every node class incl. builtins with parameters, calls with kwargs, computed keys, linear knobs) with "
+             "1-3 pickle restarts at arbitrary points; the restored manager must have the same definitions (==, hash, value, "
+             "dependencies, task sets), index supports, contents and knob state, pass verify(), behave identically under mirrored "
+             "follow-up assignments, and the two copies must be isolated in both directions (snapshot of the untouched one)",
+        design_ref="DESIGN.md 5 (C12)", note=_TB,
+        technique="deterministic simulation: pickle restart/fork inside seeded histories, mirrored and isolated continuation"),
+    "C13": dict(
+        text="acyclic expression histories with gen_fun calls at random points: the subject calls the generated function, a twin "
+             "manager with the same history (same names, same schedule) assigns the same values through set_value; contents must be "
+             "equal to each other and to the model; the mk_fun source must start with the argument assignments and list every "
+             "task that really depends on an argument exactly once, after its triggered producers, and nothing outside the "
+             "manager's trigger set. Zero-division cases are skipped (the property's proviso)",
+        design_ref="DESIGN.md 5 (C13)", note=_TB,
+        technique="deterministic simulation: twin execution of generated code vs manager under seeded histories/schedules"),
 }
